@@ -40,6 +40,8 @@ MANIFEST = dict(
                                  "log of set_cache / get_cache misses) and a forgetful context (answers only the read-back after set_cache) vs the "
                                  "extracted model with cmemo on/off; trees, diagnostic sets, evaluation log as sorted multiset per body")],
 )
+MANIFEST["text"] += ' Fourth session: files with hundreds of method bodies at the distances where a small per-body counter wraps (implementation-only stage).'
+
 ASSUMPTIONS = [
     "total parsing work beyond the count of stored cache evaluations is measured (get_cache calls on towers fit a*n+b), not proved",
     "ForgetfulContext (answers get_cache only for the read-back immediately after set_cache of the same key) is taken as 'memoisation off' of the real code; the model's cmemo=false is its counterpart",
